@@ -41,8 +41,9 @@ META = {
     ],
     "assumptions": [
         "structures enumerated: LHS kinds nested to depth 2 over signals of width <= W, RHS narrower / "
-        "equal / wider, signed and unsigned; If chains up to 4 tests; control nesting depth <= 2; "
-        "FSMs up to 4 states",
+        "equal / wider, signed and unsigned; hand-written control-flow programs (If chains up to 4 tests, nesting depth <= 2) plus "
+        "40 (quick) / 400 (thorough) programs drawn from the program grammar with a fixed seed (nesting depth <= 3, 2-4 inputs of "
+        "width <= 3, 1-2 targets of width <= 4) -- all values per program; FSMs up to 5 states",
         "_PySignalState.update used through its contract (body verified in C08)",
         "sync templates assume the domain reset is low (reset behaviour is C03's)",
         "netlist lowering of the same semantics (emit_assign / emit_stmt / NetlistDriver.emit_value): the control-flow programs are "
@@ -158,7 +159,7 @@ def stmt_templates(tier):
         for rsh in rhs_shapes(W):
             for dom in ("comb", "sync"):
                 out.append(("lhs", W, k, name, rsh, dom))
-    for k in range(len(PROGRAMS)):
+    for k in range(n_programs(tier)):
         for dom in ("comb", "sync"):
             out.append(("prog-sim", k, dom))
     return out
@@ -194,6 +195,16 @@ def check_design(name, m, domain_of_interest=None, extra_assume=None):
                 sl.curr, sl.next, sl.updates = c, n, []
                 curr[sl.signal] = c
                 prev[sl.signal] = n
+            # signals the compiled code never mentions (read only in branches that can never be active, which the simulator
+            # does not emit) have no slot: any value
+            known = {id(sl.signal) for sl in state.slots}
+            for st_ in stmts:
+                for sig in list(st_._rhs_signals()) + list(st_._lhs_signals()):
+                    if id(sig) not in known:
+                        known.add(id(sig))
+                        sh = sig.shape()
+                        curr[sig] = path.var(f"free_{sig.name}", *shape_range(sh.width, sh.signed))
+                        prev[sig] = curr[sig]
             if dom != "comb":
                 cd = frag.domains[dom]
                 if cd.rst is not None:
@@ -329,6 +340,87 @@ PROGRAMS = [
      [_set(0, 0, 4, 5), ("switch", IN(0), [((1,), [("if", [(IN(1), [_set(0, 0, 1, 0)])], [_set(0, 1, 2, 1)])]),
                                             (None, [_set(0, 2, 4, IN(1))])])]),
 ]
+
+
+class _Lcg:
+    """Own tiny generator: the generated programs must be the same on every run and every Python version."""
+    def __init__(self, seed):
+        self.x = seed & 0xFFFFFFFF
+
+    def next(self, n):
+        self.x = (1103515245 * self.x + 12345) & 0x7FFFFFFF
+        return (self.x >> 8) % n
+
+    def pick(self, xs):
+        return xs[self.next(len(xs))]
+
+
+def _gen_program(g):
+    """One control-flow program drawn from the grammar above: 2-4 inputs (widths 0-3, some signed), 1-2 targets, If/Elif/Else and
+    Switch/Case/Default nested up to depth 3, slices of the targets assigned constants or inputs, cases with integer, don't-care,
+    unrepresentable and empty pattern lists, Default anywhere, empty bodies."""
+    n_in = 2 + g.next(3)
+    in_shs = []
+    for _ in range(n_in):
+        w = g.pick([0, 1, 1, 2, 2, 3])
+        in_shs.append((w, bool(w and g.next(3) == 0)))
+    tg_shs = [(g.pick([1, 2, 4, 4]), g.next(4) == 0) for _ in range(1 + g.next(2))]
+
+    def gset():
+        t = g.next(len(tg_shs))
+        w = tg_shs[t][0]
+        lo = g.next(w)
+        hi = lo + 1 + g.next(w - lo)
+        if g.next(3) == 0:
+            lo, hi = 0, w
+        v = IN(g.next(n_in)) if g.next(3) == 0 else g.next(1 << (hi - lo))
+        return _set(t, lo, hi, v)
+
+    def gpat(w, sg):
+        k = g.next(10)
+        if k < 5:
+            return (-(1 << (w - 1)) + g.next(1 << w)) if sg else g.next(1 << w)
+        if k < 8:
+            return "".join(g.pick("01-") for _ in range(w))
+        if k == 8:
+            return (1 << w) + g.next(2) if not sg else (1 << (w - 1)) + g.next(2)       # not representable: never matches
+        return g.next(1 << w) if not sg else -1 - g.next(1 << (w - 1)) if w else 0
+
+    def gbody(depth):
+        out = []
+        for _ in range(g.pick([0, 1, 1, 1, 2]) if depth else 1 + g.next(3)):
+            k = g.next(10)
+            if k < 4 + 2 * depth or depth >= 3:
+                out.append(gset())
+            elif k < 7:
+                arms = [(IN(g.next(n_in)), gbody(depth + 1)) for _ in range(g.pick([1, 1, 2, 3]))]
+                els = gbody(depth + 1) if g.next(2) else None
+                out.append(("if", arms, els))
+            else:
+                ti = g.next(n_in)
+                w, sg = in_shs[ti]
+                cases = []
+                have_default = False
+                for _ in range(g.pick([1, 2, 2, 3, 4])):
+                    if not have_default and g.next(5) == 0:
+                        cases.append((None, gbody(depth + 1)))
+                        have_default = True
+                    else:
+                        npat = g.pick([0, 1, 1, 1, 2, 3])
+                        cases.append((tuple(gpat(w, sg) for _ in range(npat)), gbody(depth + 1)))
+                out.append(("switch", IN(ti), cases))
+        return out
+    return (in_shs, tg_shs, gbody(0))
+
+
+N_HANDWRITTEN = len(PROGRAMS)
+N_GENERATED = {"quick": 40, "thorough": 400}
+_g = _Lcg(20260922)
+PROGRAMS = PROGRAMS + [_gen_program(_g) for _ in range(N_GENERATED["thorough"])]
+
+
+def n_programs(tier):
+    return N_HANDWRITTEN + N_GENERATED["quick" if tier == "quick" else "thorough"]
 
 
 def build_program(prog, dom):
@@ -608,9 +700,9 @@ def tasks(tier):
     ts = stmt_templates(tier)
     chunk = 12
     out = [("chunk", tuple(ts[i:i + chunk])) for i in range(0, len(ts), chunk)]
-    out += [("dsl", k, dom) for k in range(len(PROGRAMS)) for dom in ("comb", "sync")]
+    out += [("dsl", k, dom) for k in range(n_programs(tier)) for dom in ("comb", "sync")]
     # the same programs through the netlist lowering (hdl/_ir.py) and the RTLIL back end: C04's evaluators, this property's programs
-    out += [("netlist", k, dom) for k in range(len(PROGRAMS)) for dom in ("comb", "sync")]
+    out += [("netlist", k, dom) for k in range(n_programs(tier)) for dom in ("comb", "sync")]
     out += [("fsm", k) for k in range(len(FSMS))]
     out += [("fsm-nested",)]
     return out
